@@ -134,6 +134,8 @@ def judge(s, mode, base, toks, tt, kw, names):
     """returns None or (canonical key, description) of the first contradiction with the property"""
     l0, c0, i0 = base
     n = len(s)
+    alias = mode == "A"
+    mode = "A" if alias else "N"      # ModeStrictCapitalization must yield the same tokens as ModeNone
     eofs = [i for i, t in enumerate(toks) if t[0] == tt["EOF"]]
     if eofs != [len(toks) - 1]:
         return ("eof mode=%s count=%d last=%s" % (mode, len(eofs), bool(toks) and toks[-1][0] == tt["EOF"]),
@@ -159,15 +161,15 @@ def judge(s, mode, base, toks, tt, kw, names):
         spans.append((a, b))
         tag = " after-alias-parameter-with-LF" if lf_param or (ty == tt["ALIAS_PARAMETER"] and "\n" in lit) else ""
         if (sl, sc) != pos[a]:
-            return ("position mode=%s field=start type=%s%s" % (mode, nm, tag),
+            return ("position mode=%s field=start%s" % (mode, tag),
                     "token %d (%s %r) at code-point offset %d: Range.Start=%s, counted position %s" % (k, nm, lit, a, (sl, sc), pos[a]))
         if (el, ec) != pos[b]:
-            return ("position mode=%s field=end type=%s%s" % (mode, nm, tag),
+            return ("position mode=%s field=end%s" % (mode, tag),
                     "token %d (%s %r) ends at code-point offset %d: Range.End=%s, counted position %s" % (k, nm, lit, b, (el, ec), pos[b]))
         if ty == tt["ALIAS_PARAMETER"] and "\n" in lit:
             lf_param = True
         prev = b
-    ref = ref_lex(s, mode == "A", tt, kw)
+    ref = ref_lex(s, alias, tt, kw)
     got = [(t[0], a, b) for t, (a, b) in zip(toks, spans)]
     if ref != got:
         k = next(i for i in range(min(len(ref), len(got)) + 1) if i >= len(ref) or i >= len(got) or ref[i] != got[i])
